@@ -535,8 +535,8 @@ def write_evidence(prop, tier, seed, level, coverage, assumptions, wall, nviol):
 # --------------------------------------------------------------------------- C18
 
 C18_PLAN = {
-    "quick": dict(runs=16000, scheds=4, cold=128, selftest=192, miri_light=4, miri_full=2, miri_conv=16, shadow=4000, budget=900),
-    "thorough": dict(runs=750000, scheds=4, cold=2048, selftest=2048, miri_light=192, miri_full=48, miri_conv=192, miri_fit=32, shadow=300000, budget=7200),
+    "quick": dict(runs=16000, scheds=4, cold=128, selftest=192, miri_light=4, miri_full=2, miri_conv=16, shadow=4000, xl_den=4000, budget=900),
+    "thorough": dict(runs=750000, scheds=4, cold=2048, selftest=2048, miri_light=192, miri_full=48, miri_conv=192, miri_fit=32, shadow=300000, xl_den=1500, budget=7200),
 }
 
 
@@ -734,7 +734,7 @@ def check_c18(tier, seed):
     batch = Batch("c18")
     for w in range(W):
         batch.spawn(["c18", "--seed", str(seed), "--salt", str(salt), "--runs", str(plan["runs"]), "--worker", str(w),
-                     "--workers", str(W), "--scheds", str(plan["scheds"])], f"w{w}", progress=True)
+                     "--workers", str(W), "--scheds", str(plan["scheds"]), "--xl-den", str(plan["xl_den"])], f"w{w}", progress=True)
     outs, hung = batch.wait(plan["budget"])
     real_hangs = 0
     sim_limited = []
@@ -974,6 +974,8 @@ def check_c11(tier, seed):
                      "--worker", str(w), "--workers", str(W)], f"x{w}")
         batch.spawn(["c11", "--mode", "exhaustive", "--alphabet", "wide", "--len", str(plan["wide_len"]),
                      "--worker", str(w), "--workers", str(W)], f"y{w}")
+        batch.spawn(["c11", "--mode", "exhaustive", "--alphabet", "dict", "--len", str(plan["wide_len"] - 1),
+                     "--worker", str(w), "--workers", str(W)], f"z{w}")
     outs, hung = batch.wait(plan["budget"])
     raws = []
     for tag, args, _idx in hung:
